@@ -168,7 +168,14 @@ func ParseFlags(budgetQuick, budgetThorough int) *Options {
 	if s := os.Getenv("VERIF_SEED"); s != "" {
 		opts.Seed, _ = strconv.ParseInt(s, 10, 64)
 	}
-	b := budgetQuick
+	// The quick tier is a fixed amount of work (sized to finish well within
+	// budgetQuick on an idle machine); its deadline is only a safety net and
+	// is kept far enough away that a loaded machine does not silently
+	// shrink what is explored.
+	b := budgetQuick * 10
+	if b < 900 {
+		b = 900
+	}
 	if opts.Tier == "thorough" {
 		b = budgetThorough
 	}
